@@ -684,7 +684,7 @@ Proof. exact TableCheck.mutator_rows_nonempty. Qed.
 Print Assumptions C15_mutator_rows_at_least_40.
 (* generated fact about the hand-set prefix cuts: nothing before a cut writes, only size / position queries and the keeper check are called *)
 Theorem C15_guard_prefixes_write_free :
-  forallb TableCheck.prefix_row_ok guard_prefix_facts = true /\ Nat.leb 18 (List.length guard_prefix_facts) = true.
+  forallb TableCheck.prefix_row_ok guard_prefix_facts = true /\ Nat.leb 19 (List.length guard_prefix_facts) = true.
 Proof. exact TableCheck.guard_prefixes_write_free. Qed.
 Print Assumptions C15_guard_prefixes_write_free.
 (* set/map hand model: any change of the contents of a container comes with a change of its version (every reachable state, every
@@ -699,4 +699,18 @@ Theorem C15_inv_established :
   Inv init /\ (forall k s o, Inv s -> Inv (fst (step k s o))) /\ (forall k s, reachable k s -> Inv s).
 Proof. exact VersionProofs.inv_established. Qed.
 Print Assumptions C15_inv_established.
+
+(* ---------- final round: HashMultiMap::MakeIterator(keyIter, valueIndex) bound under generated code ---------- *)
+Theorem C15_gen_mm_make_iterator_guard_exact :
+  forall cnt i, Gen_MultiMapGuards.MakeIt_guard cnt i = if (i <=? cnt)%Z then Ok tt else Exn.
+Proof. exact GuardProofs.mm_make_iterator_guard_exact. Qed.
+Print Assumptions C15_gen_mm_make_iterator_guard_exact.
+Theorem C15_mm_model_makeit_is_generated :
+  forall s sk idx slot k vs,
+    (forall z, MultiMap.kp (MultiMap.mhs s sk) <> MultiMap.KGap z \/ idx <> O) -> MultiMap.kp (MultiMap.mhs s sk) <> MultiMap.KUnk ->
+    MultiMap.kcont s (MultiMap.mhs s sk) true = true -> MultiMap.kderef s (MultiMap.mhs s sk) = Some (Some (k, vs)) ->
+    snd (MultiMap.mstep s (MultiMap.MMakeIt sk idx slot)) =
+      match Gen_MultiMapGuards.MakeIt_guard (Z.of_nat (List.length vs)) (Z.of_nat idx) with Ok _ => MultiMap.MAcc None | _ => MultiMap.MRej end.
+Proof. exact GuardProofs.mm_model_makeit_is_generated. Qed.
+Print Assumptions C15_mm_model_makeit_is_generated.
 
